@@ -1,10 +1,155 @@
 (* C17 property theorems: ONLY statements closed by `exact`, each followed by Print Assumptions. *)
-From Coq Require Import ZArith List Bool.
+From Coq Require Import ZArith Reals List Bool.
 From Flocq Require Import Core BinarySingleNaN.
-From DuneV Require Import C17_Model C17_Spec C17_Proofs.
+From DuneV Require Import C17_Model C17_Spec C17_Proofs C17_Proofs_Cmp C17_Proofs_Int.
 Import ListNotations.
 
-(* isNaN / isInf: any component; isFinite: all components; complex = both parts (every format) *)
+(* ---- comparison algebra: every IEEE binary format (prec, emax), every style, all finite a b, every finite eps >= 0;
+        the model performs one correctly rounded operation per C++ operation; overflow of a-b / eps*max included ---- *)
+Theorem C17_cmp_algebra :
+  forall (prec emax : Z) (Hp : Prec_gt_0 prec) (Hm : Prec_lt_emax prec emax)
+         (s : c17_cstyle) (eps a b : binary_float prec emax),
+  is_finite a = true -> is_finite b = true -> is_finite eps = true -> (0 <= B2R eps)%R ->
+  let EQ := c17_eq prec emax Hp Hm s eps in
+  let NE := c17_ne prec emax Hp Hm s eps in
+  let GT := c17_gt prec emax Hp Hm s eps in
+  let LT := c17_lt prec emax Hp Hm s eps in
+  let GE := c17_ge prec emax Hp Hm s eps in
+  let LE := c17_le prec emax Hp Hm s eps in
+  EQ a b = EQ b a /\ EQ a a = true /\
+  NE a b = negb (EQ a b) /\
+  ((LT a b = true /\ EQ a b = false /\ GT a b = false) \/
+   (LT a b = false /\ EQ a b = true /\ GT a b = false) \/
+   (LT a b = false /\ EQ a b = false /\ GT a b = true)) /\
+  LE a b = (LT a b || EQ a b) /\ GE a b = (GT a b || EQ a b) /\
+  GT a b = (Bltb b a && NE a b) /\ LT a b = (Bltb a b && NE a b) /\ GT a b = LT b a /\ GE a b = LE b a /\
+  c17_cmp_laws (c17_flt prec emax a b) (c17_fgt prec emax a b) (EQ a b) (NE a b) (GT a b) (LT a b) (GE a b) (LE a b) = true.
+Proof. exact C17_cmp_algebra_lemma. Qed.
+Print Assumptions C17_cmp_algebra.
+
+Example C17_cmp_algebra_nonvacuous :
+  let eps := c17_ex_f32 0x35800000 in
+  let one := c17_ex_f32 0x3f800000 in
+  let one' := c17_ex_f32 0x3f800002 in
+  let two := c17_ex_f32 0x40000000 in
+  is_finite eps = true /\ (0 <= B2R eps)%R /\ is_finite one = true /\ is_finite one' = true /\ is_finite two = true /\
+  c17_eq 24 128 c17_Hprec32 c17_Hmax32 C17_RelWeak eps one one' = true /\ Bltb one one' = true /\
+  c17_lt 24 128 c17_Hprec32 c17_Hmax32 C17_RelWeak eps one two = true /\
+  c17_gt 24 128 c17_Hprec32 c17_Hmax32 C17_RelStrong eps two one = true.
+Proof. exact C17_cmp_algebra_nonvacuous_lemma. Qed.
+
+(* the same algebra over ANY carrier with an exact order and a tolerant equality satisfying two laws
+   (lt asymmetric; neither less nor greater implies tolerantly equal) -- covers number types outside Flocq,
+   e.g. x87 long double, once the two laws are established for them *)
+Theorem C17_cmp_algebra_abstract :
+  forall (T : Type) (lt eq : T -> T -> bool) (dom : T -> Prop),
+  (forall a b, dom a -> dom b -> lt a b = true -> lt b a = false) ->
+  (forall a b, dom a -> dom b -> lt a b = false -> lt b a = false -> eq a b = true) ->
+  forall a b, dom a -> dom b ->
+  c17_cmp_laws (lt a b) (lt b a) (eq a b) (negb (eq a b)) (lt b a && negb (eq a b)) (lt a b && negb (eq a b))
+               (lt b a || eq a b) (lt a b || eq a b) = true.
+Proof. exact abstract_cmp_laws. Qed.
+Print Assumptions C17_cmp_algebra_abstract.
+
+(* vector comparison (std::vector, FieldVector) = equal length and conjunction over components; all lists *)
+Theorem C17_veq_conjunction :
+  forall (prec emax : Z) (Hp : Prec_gt_0 prec) (Hm : Prec_lt_emax prec emax)
+         (s : c17_cstyle) (eps : binary_float prec emax) (a b : list (binary_float prec emax)),
+  c17_veq prec emax Hp Hm s eps a b =
+  Nat.eqb (length a) (length b) && forallb (fun p => c17_eq prec emax Hp Hm s eps (fst p) (snd p)) (combine a b).
+Proof. exact C17_veq_conj_lemma. Qed.
+Print Assumptions C17_veq_conjunction.
+
+(* documented definition, real-number reading, absolute style: eq <-> |round(a-b)| <= eps (a-b not overflowing).
+   PARTIAL: the relative styles' reading  |round(a-b)| <= round(eps * max|min(|a|,|b|))  is not restated here
+   (it needs the same two lemmas plus Bmult_correct; the algebra above does not depend on it). *)
+Theorem C17_eq_absolute_real_partial :
+  forall (prec emax : Z) (Hp : Prec_gt_0 prec) (Hm : Prec_lt_emax prec emax) (eps a b : binary_float prec emax),
+  is_finite a = true -> is_finite b = true -> is_finite eps = true ->
+  (Rabs (round radix2 (SpecFloat.fexp prec emax) ZnearestE (B2R a - B2R b)) < bpow radix2 emax)%R ->
+  (c17_eq prec emax Hp Hm C17_Absolute eps a b = true <->
+   (Rabs (round radix2 (SpecFloat.fexp prec emax) ZnearestE (B2R a - B2R b)) <= B2R eps)%R).
+Proof. exact C17_eq_absolute_real_lemma. Qed.
+Print Assumptions C17_eq_absolute_real_partial.
+
+(* ---- integer helpers over machine integers (any signedness / width) ---- *)
+Local Open Scope Z_scope.
+(* factorial: exact whenever n! is representable (every n; n <= 0 gives 1) *)
+Theorem C17_factorial :
+  forall (t : c17_ity) (n : Z),
+  c17_inrange t 1 = true -> c17_inrange t (c17_spec_factorial n) = true ->
+  c17_factorial t n = C17_Val (c17_spec_factorial n).
+Proof. exact C17_factorial_lemma. Qed.
+Print Assumptions C17_factorial.
+
+(* power, p >= 0: exact whenever every partial product m^1 .. m^p is representable *)
+Theorem C17_power :
+  forall (t : c17_ity) (m p : Z),
+  0 <= p -> (forall i, 1 <= i <= p -> c17_inrange t (m ^ i) = true) ->
+  c17_ipower t m p = C17_Val (m ^ p).
+Proof. exact C17_power_lemma. Qed.
+Print Assumptions C17_power.
+
+(* binomial: the Pascal-triangle value for 0 <= k <= n under the guard that n!/(n-k')! (k' = min(k,n-k)) is representable *)
+Theorem C17_binomial :
+  forall (t : c17_ity) (n k : Z),
+  0 <= k <= n ->
+  c17_inrange t 0 = true -> c17_inrange t 1 = true -> c17_inrange t n = true -> c17_inrange t (2 * k) = true ->
+  (let k' := Z.min k (n - k) in c17_inrange t (c17_rise (n - k') (Z.to_nat k')) = true) ->
+  c17_binomial t n k = C17_Val (c17_spec_binomial n k).
+Proof. exact C17_binomial_lemma. Qed.
+Print Assumptions C17_binomial.
+
+Example C17_binomial_nonvacuous :
+  let t := C17_Ity true 32 in
+  0 <= 8 <= 16 /\ c17_inrange t 0 = true /\ c17_inrange t 1 = true /\ c17_inrange t 16 = true /\ c17_inrange t (2 * 8) = true /\
+  c17_inrange t (c17_rise (16 - Z.min 8 (16 - 8)) (Z.to_nat (Z.min 8 (16 - 8)))) = true /\
+  c17_binomial t 16 8 = C17_Val 12870 /\
+  c17_inrange t (c17_rise (18 - Z.min 9 (18 - 9)) (Z.to_nat (Z.min 9 (18 - 9)))) = false.
+Proof. exact C17_binomial_nonvacuous_lemma. Qed.
+
+Theorem C17_binomial_outside :
+  forall (t : c17_ity) (n k : Z), k < 0 \/ n < k -> c17_binomial t n k = C17_Val 0 /\ c17_spec_binomial n k = 0.
+Proof. exact C17_binomial_outside_lemma. Qed.
+Print Assumptions C17_binomial_outside.
+
+(* the specification itself: Pascal's rule, symmetry, 0 outside, C(n,k) k! (n-k)! = n! *)
+Theorem C17_binomial_spec :
+  (forall n k : nat, c17_choose (S n) (S k) = c17_choose n k + c17_choose n (S k)) /\
+  (forall n k : nat, (k <= n)%nat -> c17_choose n k = c17_choose n (n - k)) /\
+  (forall n k : nat, (n < k)%nat -> c17_choose n k = 0) /\
+  (forall n k : nat, (k <= n)%nat -> c17_choose n k * (c17_fact k * c17_fact (n - k)) = c17_fact n).
+Proof. exact C17_binomial_spec_lemma. Qed.
+Print Assumptions C17_binomial_spec.
+
+(* F-C17-1: "exact whenever C(n,k) is representable" (the property text, without the guard) is FALSE of the
+   faithful model: binomial<int>(18,9) — replayed on the implementation by corpus/C17/cases.txt *)
+Theorem C17_binomial_unguarded_refuted :
+  exists (t : c17_ity) (n k : Z),
+    0 <= k <= n /\ c17_inrange t n = true /\ c17_inrange t (2 * k) = true /\
+    c17_inrange t (c17_spec_binomial n k) = true /\
+    c17_binomial t n k <> C17_Val (c17_spec_binomial n k).
+Proof. exact C17_binomial_unguarded_refuted_lemma. Qed.
+Print Assumptions C17_binomial_unguarded_refuted.
+
+Theorem C17_binomial_unsigned_refuted :
+  c17_spec_binomial 18 9 = 48620 /\ c17_inrange (C17_Ity false 32) 48620 = true /\
+  c17_binomial (C17_Ity false 32) 18 9 = C17_Val 1276.
+Proof. exact C17_binomial_unsigned_refuted_lemma. Qed.
+Print Assumptions C17_binomial_unsigned_refuted.
+
+Theorem C17_binomial_fast_agrees_upto_16 :
+  forallb (fun n => forallb (fun k => c17_spec_binomial_fast n (k - 1) =? c17_spec_binomial n (k - 1))
+                            (map Z.of_nat (seq 0 19))) (map Z.of_nat (seq 0 17)) = true.
+Proof. exact C17_binomial_fast_agrees_upto_16_lemma. Qed.
+Print Assumptions C17_binomial_fast_agrees_upto_16.
+
+Theorem C17_sign :
+  forall v : Z, c17_isign v = c17_spec_sign v /\ (c17_isign v = -1 <-> v < 0) /\ (c17_isign v = 1 <-> 0 <= v).
+Proof. exact C17_sign_lemma. Qed.
+Print Assumptions C17_sign.
+
+(* ---- classifiers: isNaN / isInf any component, isFinite all components, complex = both parts (every format) ---- *)
 Theorem C17_classifiers : forall (prec emax : Z) (v : list (binary_float prec emax)) (re im : binary_float prec emax),
   c17_visnan prec emax v = existsb (@is_nan prec emax) v /\
   c17_visinf prec emax v = existsb (@c17_isinf prec emax) v /\
@@ -15,3 +160,10 @@ Theorem C17_classifiers : forall (prec emax : Z) (v : list (binary_float prec em
   (forall x, c17_isfinite prec emax x = negb (c17_isnan prec emax x) && negb (c17_isinf prec emax x)).
 Proof. exact C17_classifiers_lemma. Qed.
 Print Assumptions C17_classifiers.
+
+(* NOT PROVED (kept visible, see DESIGN 4/C17 `C17_trunc_round`):
+     for every format, finite val and eps >= 0, I large enough:  c17_trunc / c17_round return an integer z with
+     c17_spec_trunc_ok / c17_spec_round_ok prec emax r s eps val z = true  whenever |val| < 2^(prec-1).
+   The statement is FALSE beyond 2^prec (F-C17-2: trunc returns val+1 with eps = 0) and for unsigned I with
+   -1/2 < val < 0 (F-C17-3); both are reproduced on the implementation and reported as known findings.
+   The tie for round/trunc is the bit-exact differential check plus the exact-rational oracle. *)
